@@ -1,7 +1,9 @@
 """C20 - bundled readers render every message completely and survive foreign input.
 
 Cases
-  format : generated Eliot messages (arbitrary field names incl. the skip/first sets, "=", blanks, non-ASCII,
+  format : (each message is also rendered by both formatters on ONE dictionary object, in either order: renderings as of fresh
+           copies, dictionary unchanged)
+           generated Eliot messages (arbitrary field names incl. the skip/first sets, "=", blanks, non-ASCII,
            a newline inside a field NAME; values: multi-line strings, escapes, nesting) x pretty/compact x UTC/local
   cli    : byte streams mixing such messages with arbitrary bytes, invalid UTF-8, non-JSON text, empty lines,
            JSON scalars/arrays, objects lacking required fields or with wrongly typed ones, through
@@ -373,6 +375,48 @@ def real_filter(expr, lines):
         return {"out": fs.stdout.getvalue(), "abort": None, "rc": rc}
     except BaseException as e:  # noqa
         return {"out": fs.stdout.getvalue(), "abort": type(e).__name__, "rc": None}
+
+
+def real_format_twice(m, compact_first, local):
+    """both formatters, one after the other, on ONE dictionary object (a message handed to two sinks)"""
+    import copy
+    from eliot import prettyprint
+
+    d = copy.deepcopy(m)
+    order = [prettyprint.compact_format, prettyprint.pretty_format] if compact_first else [prettyprint.pretty_format, prettyprint.compact_format]
+    out = []
+    for f in order:
+        try:
+            out.append({"ok": f(d, local)})
+        except Exception as e:  # noqa
+            out.append({"raises": type(e).__name__})
+    fresh = []
+    for f in order:
+        try:
+            fresh.append({"ok": f(copy.deepcopy(m), local)})
+        except Exception as e:  # noqa
+            fresh.append({"raises": type(e).__name__})
+    return dict(same_object=out, fresh=fresh, after=d, names=[f.__name__ for f in order])
+
+
+def oracle_twice(ctx, case):
+    """formatting reads the message: the caller's dictionary is as it was, and a second rendering of it is what a rendering
+    of a fresh copy is"""
+    import copy
+
+    m = case["msg"]
+    before = copy.deepcopy(m)
+    r = real_format_twice(m, case["compact"], case["local"])
+    c2 = dict(case, kind="format-twice")
+    if list(r["after"].items()) != list(before.items()) and not (same(r["after"], before) and list(r["after"]) == list(before)):
+        ctx.violation("%s then %s on the same message dictionary changed it: %r, was %r" % (r["names"][0], r["names"][1], r["after"], before), c2, key=None)
+        return
+    for i in (0, 1):
+        if r["same_object"][i] != r["fresh"][i]:
+            ctx.violation("%s as rendering #%d of one message dictionary gives %r, on a fresh copy of the message %r" % (
+                r["names"][i], i + 1, r["same_object"][i].get("ok", r["same_object"][i])[:200] if "ok" in r["same_object"][i] else r["same_object"][i],
+                r["fresh"][i].get("ok", "")[:200] if "ok" in r["fresh"][i] else r["fresh"][i]), c2, key=None)
+            return
 
 
 # ---- oracles --------------------------------------------------------------------------------
@@ -790,6 +834,9 @@ def run_one(ctx, c, mo):
         else:
             ctx.traces += 1
         oracle_format(ctx, c, obs)
+        if "ok" in obs:
+            oracle_twice(ctx, c)
+            ctx.count("formatted-twice-on-one-dict")
     elif c["kind"] == "cli":
         data = b"".join(bytes(l) for l in c["lines"])
         obs = real_cli(data, c["compact"], c["local"])
@@ -854,7 +901,10 @@ def replay(ctx, obj):
     if "case" in c and "real" in c:
         c = c["case"]
     with _Tz(c.get("tz", TZ)):
-        if c.get("kind") == "format":
+        if c.get("kind") == "format-twice":
+            print(real_format_twice(c["msg"], c["compact"], c["local"]))
+            oracle_twice(ctx, dict(c, kind="format"))
+        elif c.get("kind") == "format":
             obs = real_format(c["msg"], c["compact"], c["local"])
             print(obs.get("ok", obs))
             oracle_format(ctx, c, obs)
